@@ -358,12 +358,61 @@ Proof.
   left. split; [reflexivity|]. apply create_symlink_allocated.
 Qed.
 
-(* OpenFile: either nothing is allocated (and no meta changes), or the file opened is the new node *)
+(* OpenFile: either nothing is allocated (no owner, group or permission bit changes; a truncation by a user who is
+   not an administrator clears set-id bits of the file: [meta_kept]), or the file opened is the new node *)
+Definition SETID : N := N.lor MODE_SETUID MODE_SETGID.
+
+(* [m'] is [m] up to set-id bits that were cleared: same owner and group, same mode outside the set-id bits, no bit added *)
+Definition meta_kept (m' m : meta) : Prop :=
+  m_uid m' = m_uid m /\ m_gid m' = m_gid m
+  /\ N.ldiff (m_mode m') SETID = N.ldiff (m_mode m) SETID /\ N.land (m_mode m') (m_mode m) = m_mode m'.
+
+Definition ometa_kept (o' o : option meta) : Prop :=
+  match o', o with Some m', Some m => meta_kept m' m | None, None => True | _, _ => False end.
+
+Lemma meta_kept_refl (m : meta) : meta_kept m m.
+Proof. repeat split. apply N.land_diag. Qed.
+
+Lemma ometa_kept_refl (o : option meta) : ometa_kept o o.
+Proof. destruct o; [apply meta_kept_refl|exact I]. Qed.
+
+Lemma meta_kept_trans (a b c : meta) : meta_kept a b -> meta_kept b c -> meta_kept a c.
+Proof.
+  intros (A1 & A2 & A3 & A4) (B1 & B2 & B3 & B4). repeat split; try congruence.
+  rewrite <- A4 at 1. rewrite <- N.land_assoc, B4. exact A4.
+Qed.
+
+Lemma ometa_kept_trans (a b c : option meta) : ometa_kept a b -> ometa_kept b c -> ometa_kept a c.
+Proof. destruct a, b, c; cbn; try tauto. apply meta_kept_trans. Qed.
+
+(* what dropSetId / removePrivs do to a meta *)
+Lemma drop_setid_kept (u : user) (m : meta) : meta_kept (drop_setid u m) m.
+Proof.
+  unfold meta_kept, drop_setid, SETID. cbn [m_uid m_gid m_mode]. split; [reflexivity|]. split; [reflexivity|].
+  split; apply N.bits_inj; intros k;
+    (destruct (has (m_mode m) 8 || _); rewrite ?N.land_spec, ?N.ldiff_spec, ?N.lor_spec;
+     destruct (N.testbit (m_mode m) k), (N.testbit MODE_SETUID k), (N.testbit MODE_SETGID k); reflexivity).
+Qed.
+
+Lemma drop_privs_kept (u : user) (m : meta) : meta_kept (drop_privs u m) m.
+Proof. unfold drop_privs. destruct (us_admin u); [apply meta_kept_refl|apply drop_setid_kept]. Qed.
+
 Definition metas_kept (s s' : fsys) : Prop :=
-  length (f_heap s') = length (f_heap s) /\ forall i, meta_at (f_heap s') i = meta_at (f_heap s) i.
+  length (f_heap s') = length (f_heap s) /\ forall i, ometa_kept (meta_at (f_heap s') i) (meta_at (f_heap s) i).
 
 Lemma metas_kept_refl (s : fsys) : metas_kept s s.
-Proof. split; reflexivity. Qed.
+Proof. split; [reflexivity|]. intros i. apply ometa_kept_refl. Qed.
+
+(* one file node rewritten with a meta that is [meta_kept] *)
+Lemma metas_kept_upd (s : fsys) (c : nat) (d d' : list N) (k k' : Z) (i i' : N) (m m' : meta) :
+  get (f_heap s) c = Some (NFile d k i m) -> meta_kept m' m ->
+  metas_kept s (with_heap s (upd (f_heap s) c (NFile d' k' i' m'))).
+Proof.
+  intros Hg Hk. split; [apply upd_length|]. intros j. cbn [with_heap f_heap]. unfold meta_at.
+  destruct (Nat.eq_dec c j) as [<-|Hne].
+  - rewrite wget_upd_same by (exact (wget_lt _ _ _ Hg)). rewrite Hg. exact Hk.
+  - rewrite wget_upd_other by exact Hne. apply ometa_kept_refl.
+Qed.
 
 Theorem open_file_created (s : fsys) (v : view) (vi : nat) (name : str) (flag perm : N) :
   metas_kept s (fst (open_file s v vi name flag perm))
@@ -380,7 +429,8 @@ Proof.
           else
             let d1 := if has om OpenTruncate then [] else d in
             let at_ := 0%Z in
-            (with_heap s (upd (f_heap s) c (NFile d1 k i m)), inr (new_handle c vi name at_ om))
+            let m1 := if has om OpenTruncate then drop_privs (v_user v) m else m in
+            (with_heap s (upd (f_heap s) c (NFile d1 k i m1)), inr (new_handle c vi name at_ om))
       | Some (NDir _ m) =>
           if has om OpenCreateExcl then (s, inl (RFail EFileExists))
           else if has om OpenWrite || has om OpenCreate || has om OpenTruncate then (s, inl (RFail EIsADirectory))
@@ -392,8 +442,8 @@ Proof.
     - destruct (has om OpenCreateExcl); [apply metas_kept_refl|]. destruct (_ || _); [apply metas_kept_refl|].
       destruct (negb _); apply metas_kept_refl.
     - destruct (negb _); [apply metas_kept_refl|]. destruct (has om OpenCreateExcl); [apply metas_kept_refl|].
-      cbv zeta. cbn [fst with_heap f_heap]. split; [apply upd_length|]. intros j. apply meta_at_upd.
-      intros y Hy. rewrite Hg in Hy. injection Hy as <-. reflexivity. }
+      cbv zeta. cbn [fst]. apply (metas_kept_upd s c d _ k k i i m _ Hg).
+      destruct (has om OpenTruncate); [apply drop_privs_kept|apply meta_kept_refl]. }
   unfold open_file, parent_meta. destruct name as [|x name]; [left; apply metas_kept_refl|]. cbv zeta.
   destruct (_ || _); [left; apply metas_kept_refl|].
   destruct (_ && _); [left; apply metas_kept_refl|].
@@ -415,22 +465,33 @@ Proof.
   unfold f_write. destruct (hd_name f); [apply metas_kept_refl|]. destruct (hd_node f) as [c|]; [|apply metas_kept_refl].
   unfold file_of. destruct (get (f_heap s) c) as [[ch m|d k i m|t m]|] eqn:Hg; try apply metas_kept_refl.
   destruct (negb _); [apply metas_kept_refl|]. destruct b; [apply metas_kept_refl|].
-  cbv zeta. cbn [fst with_heap f_heap]. split; [apply upd_length|].
-  intros j. apply meta_at_upd. intros y Hy. rewrite Hg in Hy. injection Hy as <-. reflexivity.
+  cbv zeta. cbn [fst]. apply (metas_kept_upd s c d _ k k i i m _ Hg). apply drop_privs_kept.
 Qed.
 
-Lemma allocated_then_kept (s s1 s2 : fsys) (m : meta) : allocated s s1 m -> metas_kept s1 s2 -> allocated s s2 m.
+(* after a creation: the new node keeps its meta up to cleared set-id bits, and so does every older node *)
+Definition allocated_w (s s' : fsys) (m : meta) : Prop :=
+  length (f_heap s') = S (length (f_heap s))
+  /\ meta_at (f_heap s') (length (f_heap s)) = Some m
+  /\ forall i, i < length (f_heap s) -> ometa_kept (meta_at (f_heap s') i) (meta_at (f_heap s) i).
+
+Lemma allocated_then_kept (s s1 s2 : fsys) (m : meta) :
+  allocated s s1 m -> metas_kept s1 s2 -> exists m', allocated_w s s2 m' /\ meta_kept m' m.
 Proof.
-  intros (A1 & A2 & A3) (K1 & K2). split; [congruence|]. split; [rewrite K2; exact A2|].
-  intros i Hi. rewrite K2. apply A3. exact Hi.
+  intros (A1 & A2 & A3) (K1 & K2). pose proof (K2 (length (f_heap s))) as Kn. rewrite A2 in Kn.
+  destruct (meta_at (f_heap s2) (length (f_heap s))) as [m'|] eqn:E; [|destruct Kn].
+  exists m'. split; [|exact Kn]. split; [congruence|]. split; [exact E|].
+  intros i Hi. rewrite <- (A3 i Hi). apply K2.
 Qed.
 
 Lemma metas_kept_trans (s s1 s2 : fsys) : metas_kept s s1 -> metas_kept s1 s2 -> metas_kept s s2.
-Proof. intros (A1 & A2) (K1 & K2). split; [congruence|]. intros i. rewrite K2. apply A2. Qed.
+Proof. intros (A1 & A2) (K1 & K2). split; [congruence|]. intros i. exact (ometa_kept_trans _ _ _ (K2 i) (A2 i)). Qed.
 
+(* a non-administrator's WriteFile with set-id bits in [perm] creates the file with them and the write clears them,
+   as on Linux: the new node has the created meta up to cleared set-id bits *)
 Theorem write_file_created (s : fsys) (v : view) (name : str) (data : list N) (perm : N) :
   metas_kept s (fst (write_file s v name data perm))
-  \/ allocated s (fst (write_file s v name data perm)) (file_meta v (parent_meta s (search_node s v name SlEval)) perm).
+  \/ exists m', allocated_w s (fst (write_file s v name data perm)) m'
+                /\ meta_kept m' (file_meta v (parent_meta s (search_node s v name SlEval)) perm).
 Proof.
   unfold write_file.
   pose proof (open_file_created s v 0 name (O_WRONLY + O_CREATE + O_TRUNC) perm) as HO.
